@@ -60,7 +60,7 @@ ASSUMPTIONS = ['every case compares Constant.value in the tree; the literal is a
                'a value whose verbatim spelling would need an unpaired backslash has no verbatim spelling (domain note of DESIGN C16)',
                'leading-zero numerals, non-latin letters/digits and operator words are not covered by the language reference: out of domain']
 BOUNDS = {
-    'quick': 'spell: strings <=4 over 15 symbols x 3 styles, BMP alone+embedded x 3 styles; escape: \\u all BMP, \\x \\octal all, '
+    'quick': 'spell: strings <=4 over 15 symbols x 3 styles, BMP alone+embedded x 3 styles, all ordered pairs of 40 line-structure characters (C0 controls, DEL, NEL, NBSP, LS, PS, BOM, space, a) alone, embedded and separated x 3 styles; escape: \\u all BMP, \\x \\octal all, '
              '\\U and \\N for cp < 0x3000 and plane boundaries (full style x context product below 0x300, 4 contexts above); body <=4 over 18 symbols x 3 styles; int: n<10**5, k<=4000 step 7 '
              'plus all k<=120; decimal: 103 integer parts x 1110 fractions + long forms; words <=3 over 5 symbols; '
              'options: all 2048 surrogates x (3 raw styles + \\u) alone and embedded, 270 BMP + 12 astral samples, strings <=2 over 15 symbols, '
@@ -185,6 +185,21 @@ def job_spell_strings(firsts):
             for rest in itertools.product(SPELL_ALPHA, repeat=n - 1):
                 spell(res, first + ''.join(rest), n <= 3)
     res.sample({'family': 'spell', 'value': firsts[0] + "'\\", 'texts': [M.quote(firsts[0] + "'\\", q) for q in M.STYLES]}, limit=1)
+    return res
+
+
+# line-structure characters: every ordered pair (a text that arrives from a file may be "normalised" on the way in)
+LINE_CHARS = [chr(c) for c in list(range(0, 32)) + [0x7f, 0x85, 0xa0, 0x2028, 0x2029, 0xfeff]] + [' ', 'a']
+
+
+def job_spell_pairs(firsts):
+    res = Result()
+    for c1 in firsts:
+        for c2 in LINE_CHARS:
+            spell(res, c1 + c2)
+            spell(res, 'a' + c1 + c2 + 'b')
+            spell(res, c1 + 'a' + c2, False)
+    res.sample({'family': 'spell', 'value': firsts[0] + LINE_CHARS[10]}, limit=1)
     return res
 
 
@@ -810,6 +825,8 @@ def jobs(tier, seed):
     for lo in range(0, 0x10000, 0x2000):
         out.append(('spell-bmp-%04x' % lo, 'job_spell_codepoints', ([(lo, lo + 0x2000)],)))
     out.append(('spell-astral', 'job_spell_codepoints', ([(cp, cp + 1) for cp in ASTRAL],)))
+    for i, sl in enumerate(chunks(LINE_CHARS, 10)):
+        out.append(('spell-pairs-%d' % i, 'job_spell_pairs', (sl,)))
     wide_all = tier == 'thorough'
     cuts = [0, 0x80, 0x100, 0x200, 0x300, 0x1000, 0x2000] + list(range(0x3000, 0x10001, 0x1000))
     for lo, hi in zip(cuts, cuts[1:]):
